@@ -105,4 +105,49 @@ theorem finishers_agree (g : G) (d d' : Gen F G) (ks ks' : KeyShare F G) (hg : G
   · obtain ⟨v, a, _, _, _, hv, hagg, _, hcert, _⟩ := hslots j hjlt
     exact commits_agree_of_response g d d' hg hg' ha ha' hp hnd hne hlt' pub' hpub' hauth j hjd v a hv hagg hcert
 
+/-- **two finishers hold the same participant list**: the session id of the response of `d'` that `d`
+stored in its OWN slot is, by `AuthResp`, the session id of a slot of `d'`, and a session id names
+the whole participant list. -/
+theorem participants_agree_of_response (g : G) (d d' : Gen F G) (hg : GoodGen g d) (hg' : GoodGen g d')
+    (ha : AllApproved d) (ha' : AllApproved d') (hne : d'.index ≠ d.index)
+    (pub' : G) (hpub' : d.participants[d'.index]? = some pub') (hauth : AuthResp g pub' d d')
+    (v : Verifier F G) (a : Agg F G) (hv : getVerifier d d.index = some v) (hagg : v.agg = some a)
+    (hcert : a.certified = true) : d'.participants = d.participants := by
+  have hlt' : d'.index < d.participants.length := by
+    rcases Nat.lt_or_ge d'.index d.participants.length with h | h
+    · exact h
+    · rw [List.getElem?_eq_none h] at hpub'; cases hpub'
+  obtain ⟨dl, _, _, hsid, _, _⟩ := approved_slot g d hg ha d.index v a hv hagg
+  have hga := (hg.good d.index v hv).hagg a hagg
+  obtain ⟨r, hr⟩ := certified_slots a hcert d'.index (by rw [hga.hvs]; exact hlt')
+  obtain ⟨_, hrs, pub, st, hpub, hsig⟩ := hga.others d'.index hne hne r hr
+  rw [hpub'] at hpub; injection hpub with hpub; subst hpub
+  obtain ⟨j2, v2, a2, r2, hv2, hagg2, hr2, hsid2⟩ := hauth d.index v a r st hv hagg hr hsig
+  obtain ⟨dl2, _, _, _, _, r2', hr2', hsid2'⟩ := approved_slot g d' hg' ha' j2 v2 a2 hv2 hagg2
+  rw [hr2] at hr2'; injection hr2' with hr2'; subst hr2'
+  have heq : Sid.h v2.dealer d'.participants dl2.commits dl2.t = Sid.h v.dealer d.participants dl.commits dl.t := by
+    rw [← hsid2', hsid2, hrs, hsid]
+  injection heq
+
+/-- **agreement without assumptions on the members' views**: two members that both finish, each
+listing the other's key at the other's index, with unforgeable responses in both directions and no
+key twice in either list, output the same public polynomial.  That the lists coincide and that each
+holds the commitments the other dealt is DERIVED (session ids name the list and the commitments). -/
+theorem finishers_agree_auth (g : G) (d d' : Gen F G) (ks ks' : KeyShare F G) (hg : GoodGen g d) (hg' : GoodGen g d')
+    (ha : AllApproved d) (ha' : AllApproved d') (hnd : d.participants.Nodup) (hnd' : d'.participants.Nodup)
+    (hne : d'.index ≠ d.index)
+    (pub pub' : G) (hpub' : d.participants[d'.index]? = some pub') (hpub : d'.participants[d.index]? = some pub)
+    (hauth : AuthResp g pub' d d') (hauth' : AuthResp g pub d' d)
+    (h : distKeyShare d = .ok ks) (h' : distKeyShare d' = .ok ks') :
+    d'.participants = d.participants ∧ commitsAt d' d'.index = commitsAt d d'.index ∧ ks'.commits = ks.commits := by
+  obtain ⟨_, hslots, _⟩ := distKeyShare_spec d ks hg.len h
+  obtain ⟨_, hslots', _⟩ := distKeyShare_spec d' ks' hg'.len h'
+  obtain ⟨v, a, _, _, _, hv, hagg, _, hcert, _⟩ := hslots d.index hg.lt
+  have hp := participants_agree_of_response g d d' hg hg' ha ha' hne pub' hpub' hauth v a hv hagg hcert
+  obtain ⟨v', a', _, _, _, hv', hagg', _, hcert', _⟩ := hslots' d'.index hg'.lt
+  have hown : commitsAt d d'.index = commitsAt d' d'.index :=
+    commits_agree_of_response g d' d hg' hg ha' ha hp.symm hnd' (Ne.symm hne) (by rw [hp]; exact hg.lt) pub hpub hauth'
+      d'.index hne v' a' hv' hagg' hcert'
+  exact ⟨hp, hown.symm, finishers_agree g d d' ks ks' hg hg' ha ha' hp hnd hne pub' hpub' hauth hown.symm h h'⟩
+
 end Dos.Dkg
